@@ -186,6 +186,7 @@ def bfs(name, worker, ops, depth, seeds=((),), workers=None, descr='',
     Histories whose canonical state was seen before are not extended. Returns
     (Part with all executed histories, stats) in the format of `explore`."""
     seen = set()
+    paths = {}          # canonical state -> first (shortest) history reaching it
     frontier = [list(s) for s in seeds]
     all_cases = []
     merged = {'cases': 0, 'states': set(), 'transitions': 0, 'outcomes': set(),
@@ -205,6 +206,7 @@ def bfs(name, worker, ops, depth, seeds=((),), workers=None, descr='',
             if key not in seen and not key.startswith('EXC'):
                 seen.add(key)
                 next_frontier.append(level_cases[ci])
+                paths[key] = level_cases[ci]
         for v in st['violations']:
             v['case_index'] += len(all_cases)
         all_cases += level_cases
@@ -225,4 +227,6 @@ def bfs(name, worker, ops, depth, seeds=((),), workers=None, descr='',
                 level_cases.append(list(h) + [op])
     merged['info'] = {'levels': levels, 'closed': not level_cases or all(
         lv['new_states'] == 0 for lv in levels[-1:])}
-    return Part(name, all_cases, worker, descr), merged
+    part = Part(name, all_cases, worker, descr)
+    part.paths = paths
+    return part, merged
